@@ -33,3 +33,10 @@ func VerifC08NoSync(s *StatsCtx) {
 		db.NoSync = true
 	}
 }
+
+// VerifC08InitWeb registers the HTTP handlers of s exactly as Start does, but
+// does not start the periodic-flush goroutine (it never ends, even after
+// Close, and would keep every block's modules alive).
+func VerifC08InitWeb(s *StatsCtx) {
+	s.initWeb()
+}
